@@ -16,6 +16,12 @@ def gen(rng, tier, quarantine=()):
     prog, fns = fn_table("forms")
     fns = [(q, f) for q, f in fns if not _quarantined(q, quarantine)]
     qual, fnir = rng.choice(fns)
+    generated = None
+    if "no-generated-programs" not in quarantine and rng.random() < 0.5:
+        from .. import progen
+
+        generated, is_gen = progen.gen_program(rng)
+        qual, fnir = "rf", dict(ir.all_functions(generated))["rf"]
     forms = ir.bound_names(fnir)
     # closure variables are reported at entry (documented, outside the statement)
     names = [n for n, f in forms.items() if f != {"decl"} and n not in fnir.get("free", ())
@@ -35,7 +41,7 @@ def gen(rng, tier, quarantine=()):
     short = qual.split(".")[-1]
     for c in range(rng.randint(1, 3)):
         nf = rng.choice([0, 0, 1, 1, 2])
-        if short in GEN_FNS and rng.random() < 0.6:
+        if (short in GEN_FNS or (generated and is_gen)) and rng.random() < 0.6:
             g = f"g{c}"
             ops.append({"op": "gen_new", "gen": g, "fn": qual, "nargs": 1})
             for _ in range(rng.randint(1, 6)):
@@ -53,7 +59,10 @@ def gen(rng, tier, quarantine=()):
         op = call_shape(rng, qual, fnir, "k1")
         op["tape"] = gen_tape(rng, 8)
         ops.append(op)
-    return {"prog": "forms", "ops": ops, "activation_inv": "C02.activation"}
+    sc = {"prog": "forms", "ops": ops, "activation_inv": "C02.activation"}
+    if generated:
+        sc.update({"prog": "generated", "program": generated, "prog_name": f"gen{rng.randrange(1 << 40):x}"})
+    return sc
 
 
 def _quarantined(qual, quarantine):
